@@ -8,6 +8,7 @@ package topologyaware
 // constructors build, with symbolic CPU constraints and symbolic requests.
 
 import (
+	cfgapi "github.com/containers/nri-plugins/pkg/apis/config/v1alpha1/resmgr/policy/topologyaware"
 	"github.com/containers/nri-plugins/pkg/resmgr/cache"
 	"github.com/containers/nri-plugins/pkg/utils/cpuset"
 	v1 "k8s.io/api/core/v1"
@@ -309,3 +310,56 @@ func VerifC03History() {
 }
 
 var _ = cpuset.New
+
+// kernel-isolated CPU sets of the fake machine used by VerifC01Reinstate
+var verifC01Isolated = [][]int{{6, 7}, {4, 5}, {2, 3, 6, 7}, {5}}
+
+// VerifC01Reinstate: exclusivity across a reconfiguration. On a machine whose
+// sysfs reports kernel-isolated CPUs a container is admitted, the unchanged
+// configuration is re-applied through the real Reconfigure (the grants are
+// reinstated on freshly built pools, as after a restart), and another
+// container is admitted: the C01 sentences hold after every step.
+func VerifC01Reinstate() {
+	machine := verifParam("machine", 0)
+	ids := verifC01Isolated[verifChoice("isolated", verifParam("isolatedSets", len(verifC01Isolated)))]
+	_, _, ncpu := verifMachine(machine)
+	allowed, reserved, _ := verifSymbolicConstraints(ncpu, 0)
+	mkcfg := func(prefer int) *cfgapi.Config {
+		cfg := verifTAConfig("cpuset:0")
+		switch prefer {
+		case 1:
+			v := true
+			cfg.PreferIsolated = &v
+		case 2:
+			v := false
+			cfg.PreferIsolated = &v
+		}
+		return cfg
+	}
+	prefer := verifChoice("preferIsolated", 3)
+	verifIsolatedCPUs = ids
+	w := verifNewPolicy(machine, allowed, reserved, cpuset.New(ids...), mkcfg(prefer))
+	verifIsolatedCPUs = nil
+	w.checkC01()
+	for k := 0; k < verifParam("before", 1); k++ {
+		c := w.newContainer(int64(verifParam("maxMilli", 2000)))
+		if err := w.p.AllocateResources(c); err == nil {
+			verifCover("allocated-before")
+		}
+		w.checkC01()
+	}
+	if err := w.p.Reconfigure(mkcfg(prefer)); err != nil {
+		verifAssert("C01.reinstate.unchanged-config-accepted", false)
+		return
+	}
+	verifCover("reconfigured")
+	verifAssert("C01.reinstate.isolated-set-kept", w.p.isolated.Equals(cpuset.New(ids...)))
+	w.checkC01()
+	for k := 0; k < verifParam("after", 1); k++ {
+		c := w.newContainer(int64(verifParam("maxMilli", 2000)))
+		if err := w.p.AllocateResources(c); err == nil {
+			verifCover("allocated-after")
+		}
+		w.checkC01()
+	}
+}
